@@ -934,8 +934,80 @@ class AsCompletedUnitThreading(AsCompletedUnit):
 
 UNITS_WAIT = [WaitUnitBase, WaitUnitThreading, AsCompletedUnit, AsCompletedUnitThreading]
 
+
+class ThreadDone(Unit):
+    """Thread.done(): False while the target runs and before start; True exactly when the thread was started and is no longer alive (consistent with join/result)."""
+    prop = 'C12'
+    file = THR
+    qual = 'Thread.done'
+    canaries = (('a thread that was never started reports done', 'return self._started.is_set()', 'return True', ''),)
+
+    def setup(self, ex):
+        st = St()
+        self.alive, self.started = z3.Bool('is_alive'), z3.Bool('started')
+        st.assume(z3.Implies(self.alive, self.started))
+        me = Rec(ex, 'self', immutable=True, methods={'is_alive': Fn(lambda e, s, a, k, n: [('ok', s, self.alive)])})
+        me.init(st, _started=Rec(ex, 'started_event', immutable=True, methods={'is_set': Fn(lambda e, s, a, k, n: [('ok', s, self.started)])}))
+        st.env['self'] = me
+        return st
+
+    def post(self, ex, outs):
+        for k, s, p in outs:
+            ex.oblige(s, 'exit: done() == started and not alive', z3.And(z3.BoolVal(k in ('normal', 'return')), box(ex, p) == V.boolv(z3.And(self.started, z3.Not(self.alive)))) if k in ('normal', 'return') else z3.BoolVal(False))
+
+
+class ThreadTerminate(Unit):
+    """Thread.terminate(): keeps throwing SystemExit into the thread until it is no longer alive; returns only then (or when throw() reports it already ended)."""
+    prop = 'C12'
+    file = THR
+    qual = 'Thread.terminate'
+    canaries = (('gives up after one attempt', '        while self.is_alive():', '        if self.is_alive():', ''),
+                ('throws an exception the target may catch', 'self.throw(SystemExit)', 'self.throw(Exception)', ''))
+
+    def setup(self, ex):
+        st = St()
+        st.ghost['throws'] = ()
+        st.ghost['alive_seen'] = None
+
+        def is_alive(e, s, a, k, n):
+            b = fresh('alive', z3.BoolSort())
+            s = s.fork()
+            s.ghost['alive_seen'] = b
+            return [('ok', s, b)]
+
+        def throw(e, s, a, k, n):
+            s = s.fork()
+            c = unbox_handle(e, a[0])
+            s.ghost['throws'] = s.ghost['throws'] + (getattr(c, 'name', None),)
+            # the thread may end between is_alive() and throw(): InvalidStateError
+            return [('ok', s, NONE), e.raise_new(s.fork(), 'mp.InvalidStateError')]
+        me = Rec(ex, 'self', immutable=True, methods={'is_alive': Fn(is_alive), 'throw': Fn(throw)})
+        st.env['self'] = me
+        return st
+
+    def on_call(self, ex, st, e, src):
+        if src == 'super().join':
+            return [('ok', st, NONE)]
+        return None
+
+    @property
+    def loops(self):
+        sp = LoopSpec(inv=lambda s, ex: z3.BoolVal(all(t == 'SystemExit' for t in s.ghost['throws'])), keep_ghost=('throws',))
+        return {0: sp}
+
+    def post(self, ex, outs):
+        for k, s, p in outs:
+            thr = s.ghost['throws']
+            if k in ('normal', 'return'):
+                ex.oblige(s, 'exit: returns only once is_alive() is False; everything thrown was SystemExit', z3.And(z3.Not(s.ghost['alive_seen']) if s.ghost['alive_seen'] is not None else z3.BoolVal(False), z3.BoolVal(all(t == 'SystemExit' for t in thr))))
+            else:
+                ex.oblige(s, 'exit(raise): only the "thread is not running" error of throw() (the thread ended by itself in between)', V.isinst(p, 'mp.InvalidStateError'))
+
+
+UNITS_THREAD_EXTRA = [ThreadDone, ThreadTerminate]
+
 UNITS = [ProcInit, ProcInitNone, ProcessRun, ProcessRunNoTarget, CollectResult, ProcJoin, ProcJoinTimeout, ProcException, ProcResult, ProcDone,
-         ThreadRun, ThreadRunNoTarget, ThreadJoin, ThreadResult, ThreadException] + UNITS_WAIT + [Agreement]
+         ThreadRun, ThreadRunNoTarget, ThreadJoin, ThreadResult, ThreadException] + UNITS_THREAD_EXTRA + UNITS_WAIT + [Agreement]
 
 
 SCENARIOS = [('', 'replay/scenarios/c12_sigkill_wait.py')]
